@@ -1275,7 +1275,8 @@ def _is_pow4_sum(t, z):
     if clos[0] != "clos" or not clos[2]:
         return False
     body = clos[2][0]
-    return is_call_to(body, lambda s: s.endswith("::pow")) and body[2][0] == C(4) and _strip_cast(body[2][1])[0] == "v"
+    exp = _strip_cast(body[2][1]) if is_call_to(body, lambda s: s.endswith("::pow")) and len(body[2]) == 2 else None
+    return exp is not None and body[2][0] == C(4) and exp[0] == "v" and exp[1].startswith("clos%s:" % clos[1])     # the exponent is the closure's own parameter
 
 
 def _filtered_by(key, fr):
